@@ -434,3 +434,91 @@ func computeAccTaint(p *Prog, steps []accStep) *accTaint {
 	}
 	return t
 }
+
+// ruleW: arithmetic on accumulator-derived values (outside the accumulation steps themselves)
+// is wrap-free where it is computed: a wrapped intermediate that is then compared or stored
+// defeats every later range test.
+func ruleW(c *Ctx) {
+	steps := findAccSteps(c.Prog)
+	taint := computeAccTaint(c.Prog, steps)
+	isStep := map[ssa.Value]bool{}
+	for _, s := range steps {
+		isStep[s.add] = true
+		isStep[s.mul] = true
+		isStep[s.res] = true
+	}
+	var keys []string
+	for k := range c.SFuncs {
+		keys = append(keys, k)
+	}
+	sort.Strings(keys)
+	cnt := map[string]int{}
+	n := 0
+	for _, k := range keys {
+		fn := c.SFuncs[k]
+		for _, b := range fn.Blocks {
+			for _, ins := range b.Instrs {
+				bo, ok := ins.(*ssa.BinOp)
+				if !ok || isStep[bo] || !isIntType(bo.Type()) {
+					continue
+				}
+				switch bo.Op {
+				case token.ADD, token.MUL, token.SUB, token.SHL:
+				default:
+					continue
+				}
+				if !taint.vals[bo.X] && !taint.vals[bo.Y] {
+					continue
+				}
+				n++
+				base := k + ":" + accName(bo)
+				cnt[base]++
+				key := base
+				if cnt[base] > 1 {
+					key += "#" + itoa(cnt[base])
+				}
+				env := newRangeEnv(fn)
+				env.cellHi = map[string]*big.Int{"PV.CLen.UIVal": bigOf(1 << 24)}
+				lo, hi := env.rng(bo, b)
+				if bo.Op == token.ADD && taint.vals[bo.X] != taint.vals[bo.Y] && len(env.wraps) > 0 {
+					// accumulated number + buffer position: positions are bounded by the documented 65,535-byte limit
+					tv, pv := bo.X, bo.Y
+					if taint.vals[bo.Y] {
+						tv, pv = bo.Y, bo.X
+					}
+					if bt, ok := pv.Type().Underlying().(*types.Basic); ok && bt.Kind() == types.Int {
+						e2 := newRangeEnv(fn)
+						e2.cellHi = env.cellHi
+						tl, th := e2.rng(tv, b)
+						if len(e2.wraps) == 0 && tl.Sign() >= 0 && new(big.Int).Add(th, bigOf(65535)).Cmp(bigOf(1<<31-1)) <= 0 {
+							c.assumed("W", key, bo.Pos(), "number "+rangeStr(tl, th)+" (Content-Length <= 2^24 by rule R) added to a buffer position, assumed <= 65,535 (documented addressing limit): no wrap even in 32-bit int")
+							continue
+						}
+					}
+				}
+				if len(env.wraps) > 0 && k == "setFromParamVal" {
+					if cvs := bo.Referrers(); cvs != nil {
+						for _, r := range *cvs {
+							if cv, ok := r.(*ssa.Convert); ok {
+								if why, ok := qScaleProof(c, cv, newRangeEnv(fn)); ok {
+									c.excepted("W", key, bo.Pos(), why)
+									env.wraps = nil
+									lo = nil
+								}
+							}
+						}
+					}
+					if lo == nil {
+						continue
+					}
+				}
+				if len(env.wraps) == 0 {
+					c.ok("W", key, bo.Pos(), "arithmetic on an accumulated number is wrap-free here: "+rangeStr(lo, hi)+" in "+typeShort(bo.Type()))
+				} else {
+					c.fail("W", key, bo.Pos(), "arithmetic on an accumulated number can wrap before it is range-checked: "+env.wraps[0])
+				}
+			}
+		}
+	}
+	c.check(n >= 3, "W", "count", token.NoPos, fmt.Sprintf("%d derived arithmetic sites analysed (frozen minimum 3)", n))
+}
